@@ -17,9 +17,11 @@ vars == <<kind, baddirs, badfiles, path, dfs, fmt, k, phase>>
 Nd(i, p, kd, nm, cont) == [id |-> i, parent |-> p, kind |-> kd, name |-> nm, content |-> cont, mode |-> IF kd = "dir" THEN 493 ELSE 420]
 Tree == << Nd(1, 0, "dir", "d1", ""), Nd(2, 1, "file", "f1.txt", "one\ntwo\n"), Nd(3, 1, "dir", "d2", ""), Nd(4, 3, "file", "f2.txt", "#!x\n"),
            Nd(5, 0, "dir", "d3", ""), Nd(6, 5, "file", "f3.txt", "a\nb\nc"), Nd(7, 0, "file", "f0.txt", ""), Nd(8, 3, "dir", "d4", ""),
-           Nd(9, 8, "file", "f4.txt", "zz\n") >>
+           Nd(9, 8, "file", "f4.txt", "zz\n"),
+           \* an image whose dimensions are read from its content, and a directory that is named like one
+           Nd(10, 0, "file", "p.svg", "<svg xmlns=\"http://www.w3.org/2000/svg\" width=\"5\" height=\"5\"></svg>\n"), Nd(11, 0, "dir", "dd.svg", "") >>
 Dirs == {1, 3, 5, 8}
-Files == {2, 4, 6, 7, 9}
+Files == {2, 4, 6, 7, 9, 10}
 (* mode 0 makes a directory unlistable / a file unreadable for the unprivileged user the search runs as *)
 W(bd, bf) == [nodes |-> [i \in 1 .. Len(Tree) |-> IF i \in bd \cup bf THEN [Tree[i] EXCEPT !.mode = 0] ELSE Tree[i]]]
 Subsets2(S) == { {} } \cup { {a} : a \in S } \cup { {a, b} : a \in S, b \in S }
@@ -36,7 +38,7 @@ ChooseDirs == /\ phase = "start" /\ kind' = "dirs" /\ baddirs' \in Subsets2(Dirs
 ChooseNotDir == /\ phase = "start" /\ kind' \in {"notdir", "missing", "rxfile", "rxmissing"} /\ baddirs' = {} /\ badfiles' = {}
                 /\ path' \in {"streamed", "ordered"} /\ dfs' \in BOOLEAN /\ fmt' = "list" /\ k' = 0 /\ phase' = "done"
 ChooseFiles == /\ phase = "start" /\ kind' = "files" /\ badfiles' \in Subsets2(Files) /\ baddirs' = {}
-               /\ path' \in {"metadata", "content", "aggregate"} /\ dfs' = FALSE /\ fmt' = "list" /\ k' = 0 /\ phase' = "done"
+               /\ path' \in {"metadata", "content", "aggregate", "media"} /\ dfs' = FALSE /\ fmt' = "list" /\ k' = 0 /\ phase' = "done"
 ChoosePipe == /\ phase = "start" /\ kind' = "pipe" /\ baddirs' = {} /\ badfiles' = {}
               /\ fmt' \in {"tabs", "lines", "list", "csv", "json", "html"}
               /\ path' \in {"streamed", "ordered", "aggregate", "grouped"}
@@ -51,6 +53,7 @@ DirQuery == CASE path = "streamed" -> "select inode, path from '.'" \o Mode \o "
 FileQuery == CASE path = "metadata" -> "select path, size, mode, hardlinks from '.' into list"
                [] path = "content" -> "select path, line_count, sha1, is_shebang from '.' into list"
                [] path = "aggregate" -> "select count(*), sum(size), sum(line_count), max(size) from '.' into list"
+               [] path = "media" -> "select path, width, height, line_count from '.' into list"
 PipeQuery == (CASE path = "streamed" -> "select name, size, path from '.'"
                 [] path = "ordered" -> "select name, size, path from '.' order by name"
                 [] path = "aggregate" -> "select count(*), sum(size), max(name) from '.'"
